@@ -143,3 +143,14 @@ Theorem C01_json_reads_what_was_written_with_floats :
   forall (v : jval) (tail : bytes), writable f_finite v -> val_end tail ->
     json_value (jwrite json_f64 v ++ tail) = (jevs v, JOk tail).
 Proof. exact (json_value_reads_back json_f64 f_finite json_f64_reads_all json_f64_head_all). Qed.
+
+(* JSON -> JSON keeps the value, for EVERY input text (theories/JsonIdemProofs.v):
+   whatever spelling, spacing, escape and exponent forms the input uses, the text
+   xt writes is read back to exactly the events the input was read to - the same
+   types, the same integers, the identical 64 bits of every float, the same
+   strings byte for byte, the same entry order, repeated keys included. *)
+From XtModel Require Import JsonIdemProofs.
+
+Theorem C01_json_to_json_same_value_for_every_input :
+  forall inp o : bytes, json_to_json_f inp = Some o -> fst (json_slice o) = fst (json_slice inp).
+Proof. exact json_to_json_keeps_events. Qed.
